@@ -234,18 +234,21 @@ def subarrayKeep (a : Arr) (i1 : Index) : Except Err Arr :=
   | .int k => (normInt a.n k).bind (fun k' => subarray a (.slice (some k') (some (k' + 1)) none))
   | _ => subarray a i1
 
+/-- `stack[i0, i1]` when `i0` is not an integer: atoms first, then models -/
+def getitem2Rest (a : Arr) (i0 i1 : Index) : Except Err Val :=
+  match subarrayKeep a i1 with
+  | .error e => .error e
+  | .ok s =>
+    if i0 = .ellipsis then .ok (.arr s)
+    else (resolve s.coord.length i0).map (fun ms => .arr (selModels s ms))
+
 /-- `__getitem__` with a pair `(i0, i1)` -/
 def getitem2 (a : Arr) (i0 i1 : Index) : Except Err Val :=
   if !a.stack then
     (if i0 = .ellipsis then arrayGet a i1 else .error .indexError)
   else match i0 with
     | .int i => (getArray a i).bind (fun x => arrayGet x i1)
-    | _ =>
-      match subarrayKeep a i1 with
-      | .error e => .error e
-      | .ok s =>
-        if i0 = .ellipsis then .ok (.arr s)
-        else (resolve s.coord.length i0).map (fun ms => .arr (selModels s ms))
+    | _ => getitem2Rest a i0 i1
 
 /-! ### element assignment, deletion -/
 
@@ -371,9 +374,9 @@ def totalLen (xs : List Arr) : Nat := (xs.map (·.n)).foldr (· + ·) 0
 
 /-- `concatenate(atoms)` -/
 def concatenate (xs : List Arr) : Except Err Arr :=
-  match xs with
-  | [] => .error .indexError
-  | f :: _ =>
+  match xs.head? with
+  | none => .error .indexError
+  | some f =>
     match concatCheck f.stack f.coord.length xs with
     | .error e => .error e
     | .ok _ =>
@@ -390,9 +393,9 @@ def concatenate (xs : List Arr) : Except Err Arr :=
 
 /-- `stack(arrays)` -/
 def stackArrays (xs : List Arr) : Except Err Arr :=
-  match xs with
-  | [] => .error (.other "AttributeError")
-  | f :: _ =>
+  match xs.head? with
+  | none => .error (.other "AttributeError")
+  | some f =>
     if xs.any (·.stack) then .error unmodelled
     else if !(xs.all (fun a => a.n == f.n)) then .error .valueError      -- unequal annotations / shapes differ
     else if !(xs.all (fun a => equalAnnot a.annot f.annot)) then .error .valueError
